@@ -25,12 +25,13 @@ func init() {
 	ruleText["R15.5"] = "in getVarDependencies the kind of an identifier's parent node is tested only against selectorExpr (and keyValueExpr only together with a struct-literal test); no other parent kind makes an identifier be ignored"
 	ruleText["R15.6"] = "in genGlobalVarDecl, from the statement appending a variable to the ordered list the head of the innermost enclosing loop is not reachable without leaving that loop: the earliest ready variable is taken first, then the scan restarts"
 	ruleText["R15.7"] = "for every case of gta's switch over node kinds that creates variable symbols (directly or in a directly called in-package function), each &symbol{kind: varSym} literal records the declaration node (and the global flag if getVarDependencies tests it), in the literal or by an assignment in the same case"
+	ruleText["R15.9"] = "getVarDependencies stores nothing outside its own locals (same analysis as C05/R05.6): no dependency set is remembered across variables in a map or field supplied by the caller"
 	ruleText["R15.8"] = "in the defineStmt and defineXStmt cases of gta no in-package resolving call assigns the pass's named error result (cfgErrorf excepted) and the node is appended to the revisit list"
 	ruleText["R15.4"] = "the function collecting the dependencies of a package variable handles function symbols (refers to funcSym): dependencies that pass through function bodies are followed"
 }
 
 func runC15(c *Config, r *Report) {
-	ic, err := loadInterp(c, false)
+	ic, err := loadInterp(c, true)
 	if err != nil {
 		r.Errorf("%v", err)
 		return
@@ -43,6 +44,9 @@ func runC15(c *Config, r *Report) {
 	c15R6(ic, r)
 	c15R7(ic, r)
 	c15R8(ic, r)
+	// R15.9: the dependency collector recomputes its answer for each variable
+	pureFuncs(ic, r, "R15.9", []string{"getVarDependencies"}, 1, "recomputed-for-each-variable",
+		"the variables reached through a function body depend on where the walk entered a cycle of mutually recursive functions (the function being visited is skipped), so a result remembered for one variable is incomplete for the next one: its initializer is ordered before a variable it reads through the other function and sees the zero value", false)
 }
 
 // startListVar returns the local variable holding the start list in fi: the one appended
